@@ -121,7 +121,7 @@ func keys(m map[uint32]bool) []uint32 {
 func runSignVerify(s *summary, k *h.Keys, root *h.Rng, n int, thorough bool, addCase addCaseFn) {
 	for i := 0; i < n; i++ {
 		r := root.Fork()
-		b, info := h.GenGroupedImage(r)
+		b, info, hist := h.GenGroupedImageH(r)
 		before := bytes.Clone(b.Bytes())
 		if len(info.Groups) == 0 {
 			continue
@@ -137,9 +137,14 @@ func runSignVerify(s *summary, k *h.Keys, root *h.Rng, n int, thorough bool, add
 		default:
 			s.OpKinds["select-default"]++
 		}
-		f, err := sif.LoadContainer(b, sif.OptLoadWithCloseOnUnload(false))
-		if err != nil {
-			panic(err)
+		// sign on the handle the pre-signing history ran on, or on a fresh one
+		f := hist
+		if i%2 == 1 {
+			var err error
+			if f, err = sif.LoadContainer(b, sif.OptLoadWithCloseOnUnload(false)); err != nil {
+				panic(err)
+			}
+			desc += "; reloaded before signing"
 		}
 		if sc := h.RunSign(k, 1000+i, before, cfg); sc != nil {
 			scases = append(scases, sc)
@@ -167,6 +172,8 @@ func runSignVerify(s *summary, k *h.Keys, root *h.Rng, n int, thorough bool, add
 			continue
 		}
 		after := bytes.Clone(b.Bytes())
+		s.OracleRuns["deterministic-signing-leaves-no-clock"]++
+		s.Oracle = append(s.Oracle, signTimes(i, before, after, cfg, desc)...)
 		s.OracleRuns["sign-only-appends"]++
 		s.Oracle = append(s.Oracle, appendOnly(i, before, after, cfg, info, desc)...)
 		vo := cfg.VOpts()
@@ -248,6 +255,39 @@ func runSignVerify(s *summary, k *h.Keys, root *h.Rng, n int, thorough bool, add
 			}
 		}
 	}
+}
+
+// signTimes (C12): with OptSignDeterministic every time field signing writes is the zero time
+// and a deterministic image stays deterministic; with OptSignWithTime alone the given time.
+func signTimes(id int, before, after []byte, cfg h.SignConfig, desc string) []h.Finding {
+	var out []h.Finding
+	bi, err1 := h.DecodeImage(before)
+	ai, err2 := h.DecodeImage(after)
+	if err1 != nil || err2 != nil || len(bi.Descs) != len(ai.Descs) {
+		return nil
+	}
+	want := int64(h.ZeroTime)
+	switch cfg.TimeMode {
+	case 1:
+		want = 1504657553
+	case 2:
+		return nil
+	}
+	bad := func(format string, a ...any) {
+		out = append(out, h.Finding{Property: "C12", Case: id, What: fmt.Sprintf(format, a...), Input: desc})
+	}
+	if ai.H.Mtime != want {
+		bad("header modification time after signing is %d, expected %d", ai.H.Mtime, want)
+	}
+	if ai.H.Ctime != bi.H.Ctime || ai.H.ID != bi.H.ID {
+		bad("signing changed the header creation time or ID")
+	}
+	for i, d := range ai.Descs {
+		if d.Used && !bi.Descs[i].Used && (d.Ctime != want || d.Mtime != want) {
+			bad("signature object %d has times %d/%d, expected %d", d.ID, d.Ctime, d.Mtime, want)
+		}
+	}
+	return out
 }
 
 // appendOnly: signing only appends ungrouped signature objects linked to the signed groups.
